@@ -1,6 +1,6 @@
 """C14 — idle and establishment timeouts: activity patterns around T on the real DuplexPipe under the paused clock."""
 from run_check import Case
-from vlib import untok
+from vlib import untok, line
 from props import pipegen as g
 
 TRUSTED_BASE = [
@@ -9,14 +9,15 @@ TRUSTED_BASE = [
     "hand-written timed model coq/Model/Pipe.v (shared with C02) and the idle-timer abstraction coq/Model/IdleTimer.v",
     "translator tools/gen_tables.py: PipeFacts.v (last_activity refreshed on transfers only, strict two-sided expiry test, awaits under tokio timeout) and TimeoutFacts.v (connect under connection_establishment_timeout -> ConnectionError::Timeout, TLS accept under tls_handshake_timeout)",
     "tokio's timer under the paused clock fires exactly at its deadline (slack 0); a real clock only fires later",
-    "extraction + driver.ml, cross-checked against vm_compute; harness door verif::pipe under start_paused",
+    "extraction + driver.ml, cross-checked against vm_compute; harness door verif::pipe under start_paused; door verif::session for the session-level timer (real time)",
+    "hand-written model coq/Model/Listener.v of the session loop with respect to client_listener_timeout; fact LISTENER_TIMEOUT_SPARES_ACTIVE_SESSIONS",
 ]
 ASSUMPTIONS = [
     "tokio::time::timeout never fires before its deadline and polls the inner future first",
     "establishment and handshake timeouts are tokio::time::timeout wrappers whose presence is a regenerated structural fact; their firing is exercised through the session door in C10",
 ]
 RULE = ("activity patterns relative to T: arrival gaps in {1, 7, T/3, T-3, T-1, T, T+1, T+7, 2T-1, 2T, 2T+3, 3T+11}, one-sided and two-sided traffic, "
-        "back-pressure stalls shorter and longer than T, ends idle / EOF / flush-never / error; pure-arrival scenarios carry the direct oracle "
+        "back-pressure stalls shorter and longer than T, ends idle / EOF / flush-never / error; whole sessions (HTTP/1.1, HTTP/2) with a tunnel transferring under a short client-listener timeout, then idle;  pure-arrival scenarios carry the direct oracle "
         "(closed no earlier than T and no later than 2T after the last transfer, never while a transfer happens in every period); "
         "non-trivial = some gap >= T-3; distinct = distinct script")
 
@@ -58,10 +59,57 @@ def gen_cases(rng, ctx):
         toks = g.scenario(rng, T, g.style_timing(T))
         l = g.mk_line(toks)
         cases.append(Case(l, l, kind="stalls-and-ends", nontrivial=True, meta={"T": T, "pure": False}))
+    # the session-level timer on the real stack (real time): tunnels that keep transferring under a short
+    # client-listener timeout, and idle sessions that must still be closed by it
+    for http2 in (0, 1):
+        for lt, period, rounds in ((400, 100, 12), (300, 50, 14), (250, 200, 5)):
+            l = line("c14_session", [[http2, lt, 100000, period, rounds]])
+            cases.append(Case(l, l, kind="live:listener-timer-h%d" % (2 if http2 else 1), nontrivial=True,
+                              meta={"session": True, "lt": lt, "period": period, "rounds": rounds, "http2": http2}))
+    # connection establishment on the real stack: CONNECT to a peer that never answers the SYN must be failed
+    # by the establishment timeout, not by the (much longer) idle timeout of established tunnels
+    for http2 in (0, 1):
+        for est in (400, 250):
+            l = line("c14_establish", [[http2, est, 100000]])
+            cases.append(Case(l, l, kind="live:establishment-h%d" % (2 if http2 else 1), nontrivial=True,
+                              meta={"establish": True, "est": est, "http2": http2}))
     return cases
 
 
+RETRY_PREFIX = "live"
+
+
 def judge(case, impl, model, spec, ctx):
+    if case.meta.get("establish"):
+        m = case.meta
+        if impl == "999":
+            return [("violation", "the session harness panicked")]
+        st, when = untok(impl.split()[0])
+        what = "%s CONNECT to a peer that never answers, establishment timeout %d ms, idle timeout 100 s" % ("HTTP/2" if m["http2"] else "HTTP/1.1", m["est"])
+        if when == 2:
+            return [("violation", "%s: no response within %d ms: the attempt outlived its establishment timeout" % (what, 3 * m["est"] + 500))]
+        if st != 502:
+            return [("violation", "%s: answered %d, not 502" % (what, st))]
+        if when == 0:
+            return [("violation", "%s: failed before 0.7 x the establishment timeout" % what)]
+        if model is not None and impl != model:
+            return [("disagree", "%s: %s vs model %s" % (what, impl, model))]
+        return []
+    if case.meta.get("session"):
+        m = case.meta
+        if impl == "999":
+            return [("violation", "the session harness panicked")]
+        st, echoed, early, idle_closed = untok(impl.split()[0])
+        what = "%s tunnel transferring a byte every %d ms, client-listener timeout %d ms" % ("HTTP/2" if m["http2"] else "HTTP/1.1", m["period"], m["lt"])
+        if st != 200:
+            return [("disagree", "%s: CONNECT answered %d" % (what, st))]
+        if early or echoed != m["rounds"]:
+            return [("violation", "%s: the tunnel was closed after %d of %d exchanges although it never stopped transferring" % (what, echoed, m["rounds"]))]
+        if idle_closed != 1:
+            return [("violation", "%s: after the tunnel ended the idle session was not closed by the client-listener timeout" % what)]
+        if model is not None and impl != model:
+            return [("disagree", "%s: %s vs model %s" % (what, impl, model))]
+        return []
     if impl == "999":
         return [("violation", "the pipe panicked")]
     out = []
